@@ -577,11 +577,14 @@ def escape(p):
     return p.replace(b"\\", b"\\\\").replace(b'"', b'\\"')
 
 
-def to_calls(doc, rng, start_flavours=True, explicit_eq=0.5, binary=0.0):
+def to_calls(doc, rng, start_flavours=True, explicit_eq=0.5, binary=0.0, trace=None):
     """A call list (harness/src/fam_writer.rs syntax) describing doc.  Only for documents without Param /
     Ghost / object tails (the writer API has no call for them).  start_flavours: pick write_start /
     write_object_start / write_array_start at random where each is legal; explicit_eq: probability of an
-    explicit write_operator(Equal); binary: probability of routing a call through write_binary."""
+    explicit write_operator(Equal); binary: probability of routing a call through write_binary.
+    trace: optional list that receives, per call, what expecting_key() must return afterwards
+    (True after write_object_start and after a complete value in an object, False after a key, an
+    operator, a header, inside arrays and right after write_start / write_array_start)."""
     calls = []
 
     def via_bin(c):
@@ -605,54 +608,57 @@ def to_calls(doc, rng, start_flavours=True, explicit_eq=0.5, binary=0.0):
             return "bin:EQ"
         return c
 
-    def emit(c):
+    def emit(c, ek):
         calls.append(via_bin(c) if rng.random() < binary else c)
+        if trace is not None:
+            trace.append(ek)
 
     def op_calls(op, force):
         if op is None or op == "=":
             if force or rng.random() < explicit_eq:
-                emit("op:6")
+                emit("op:6", False)
         else:
-            emit("op:%d" % OP_CODE[op])
+            emit("op:%d" % OP_CODE[op], False)
 
-    def value(v):
+    def value(v, in_obj):
+        """in_obj: the value completes a field of an object (then a key is expected next)"""
         if isinstance(v, S):
-            emit(_scalar_call(v, rng))
+            emit(_scalar_call(v, rng), in_obj)
         elif isinstance(v, Hdr):
             if v.name == b"rgb" and isinstance(v.value, Arr) and not v.value.mixed and len(v.value.elems) in (3, 4) \
                     and all(isinstance(e, S) and e.raw.isdigit() and int(e.raw) < 2 ** 32 and str(int(e.raw)).encode() == e.raw for e in v.value.elems) and rng.random() < 0.6:
-                emit("rgb:" + ":".join(e.raw.decode() for e in v.value.elems))
+                emit("rgb:" + ":".join(e.raw.decode() for e in v.value.elems), in_obj)
             else:
-                emit("h:" + _hx(v.name))
-                value(v.value)
+                emit("h:" + _hx(v.name), False)
+                value(v.value, in_obj)
         elif isinstance(v, Obj):
             fl = rng.choice(["os", "os", "s", "as"]) if start_flavours else "os"
-            emit(fl)
+            emit(fl, fl == "os")
             fields(v.items, first_needs_explicit=(fl != "os"))
-            emit("e")
+            emit("e", in_obj)
         else:
             fl = rng.choice(["as", "as", "s"]) if start_flavours else "as"
             # write_start decides array-ness only at the second call: legal for every array
-            emit(fl)
+            emit(fl, False)
             for e in v.elems:
-                value(e)
+                value(e, False)
             if v.mixed:
-                emit("m")
+                emit("m", False)
                 for e in v.mixed:
                     if isinstance(e, S):
-                        emit(_scalar_call(e, rng))
+                        emit(_scalar_call(e, rng), False)
                     else:
-                        emit(_scalar_call(e.key, rng))
-                        emit("op:%d" % OP_CODE[e.op or "="])
-                        value(e.value)
-            emit("e")
+                        emit(_scalar_call(e.key, rng), False)
+                        emit("op:%d" % OP_CODE[e.op or "="], False)
+                        value(e.value, False)
+            emit("e", in_obj)
 
     def fields(items, first_needs_explicit=False):
         first = True
         for it in items:
-            emit(_scalar_call(it.key, rng))
+            emit(_scalar_call(it.key, rng), False)
             op_calls(it.op, first and first_needs_explicit)
-            value(it.value)
+            value(it.value, True)
             first = False
 
     fields(doc.items)
